@@ -126,6 +126,8 @@ impl Worker {
             {
                 match job {
                     Job::Task(task) => {
+                        #[cfg(feature = "verif")]
+                        crate::verif::sched::yield_point(2);
                         let _ = task();
                     }
                     Job::Shutdown => break,
